@@ -59,7 +59,7 @@ func (f *Lte) Call(s *slip.Scope, args slip.List, depth int) slip.Object {
 	}
 	pos++
 	for ; pos < len(args); pos++ {
-		arg, target = slip.NormalizeNumber(args[pos], target)
+		arg, target = normalizeForCompare(args[pos], target)
 		switch ta := arg.(type) {
 		case slip.Fixnum:
 			if target.(slip.Fixnum) > ta {
